@@ -305,6 +305,15 @@ def builtin_call(ex, name, e, env):
         vals = [lift(A(k)) for k in range(len(e.args))]
         if len(vals) == 1:
             conc = ex.try_iter_concrete(vals[0])
+            if conc is None and isinstance(ex.deref(vals[0]), ADict):
+                # max / min of the KEYS of a symbolic dict: ValueError when it is empty (a path decision), otherwise a key that bounds every key
+                d = ex.deref(vals[0])
+                if ex.decide(d.n == 0):
+                    raise __import__("vf.pyvc.engine", fromlist=["RaiseEx"]).RaiseEx("ValueError", getattr(e, "lineno", 0))
+                m = fresh(name + "key")
+                x = fresh("x")
+                ex.fact(z3.Select(d.dom, m), z3.ForAll([x], z3.Implies(z3.Select(d.dom, x), (x <= m) if name == "max" else (x >= m))))
+                return m
             if conc is None:
                 return agg_model(ex, name, vals[0], e)
             vals = [lift(x) for x in conc]
